@@ -41,3 +41,21 @@ Print Assumptions unflatten_total.
 Print Assumptions flatten_available.
 Print Assumptions dict_keys_are_init_fields.
 Print Assumptions classes_present.
+
+(* trace safety of control flow: every if / while / conditional expression / assert of the library's numerical code is decided
+   by None-ness, shapes, the integer size attributes, boolean keyword flags, isinstance or literals -- never by the value of
+   an array (a tracer under jit / vmap / grad).  `tests` is regenerated from the source; an expression the translator
+   cannot classify is TOther and makes the theorem fail. *)
+Fixpoint is_static (e : texpr) : bool :=
+  match e with
+  | TNone | TConst | TDim | TFlag _ => true
+  | TNot e' => is_static e'
+  | TAnd l | TCmp l => forallb is_static l
+  | TOther _ => false
+  end.
+Theorem control_flow_static : forallb (fun t => is_static (snd t)) tests = true.
+Proof. vm_compute. reflexivity. Qed.
+(* non-vacuity: the analysis saw the library's control flow *)
+Theorem control_flow_seen : Nat.leb 100 (List.length tests) = true.
+Proof. vm_compute. reflexivity. Qed.
+Print Assumptions control_flow_static.
